@@ -67,4 +67,41 @@ def decodeBlock (ddc dac : DDerived) (bits : List Bool) : Option (Int × List In
     | none => none
     | some (ac, rest') => some (diff, ac, rest')
 
+/-! ### a restart interval: blocks in MCU order, one DC predictor per component of the scan -/
+
+/-- one block as the entropy coder sees it: the slot of its component in the scan (0 .. comps_in_scan-1), its DC
+coefficient and its 63 AC coefficients in zigzag order -/
+structure Blk where
+  slot : Nat
+  dc : Int
+  ac : List Int
+deriving Repr, DecidableEq
+
+/-- `encode_mcu_huff` over the blocks of one restart interval: every block is coded with the tables of its
+component, the DC coefficient as the difference to `last_dc_val[slot]` -/
+def encodeBlocks (tabs : Nat → Option (CDerived × CDerived)) : Array Int → List Blk → Option (List Bool)
+  | _, [] => some []
+  | pred, b :: rest =>
+    match tabs b.slot with
+    | none => none
+    | some (cdc, cac) =>
+      match encodeBlock cdc cac (b.dc - pred.getD b.slot 0) b.ac, encodeBlocks tabs (pred.setIfInBounds b.slot b.dc) rest with
+      | some x, some y => some (x ++ y)
+      | _, _ => none
+
+/-- `decode_mcu` over the blocks of one restart interval, given the component slot of every block -/
+def decodeBlocks (tabs : Nat → Option (DDerived × DDerived)) : Array Int → List Nat → List Bool → Option (List Blk × List Bool)
+  | _, [], bits => some ([], bits)
+  | pred, s :: rest, bits =>
+    match tabs s with
+    | none => none
+    | some (ddc, dac) =>
+      match decodeBlock ddc dac bits with
+      | none => none
+      | some (diff, ac, bits') =>
+        let dc := pred.getD s 0 + diff
+        match decodeBlocks tabs (pred.setIfInBounds s dc) rest bits' with
+        | none => none
+        | some (bs, r) => some (⟨s, dc, ac⟩ :: bs, r)
+
 end LJT.SeqHuff
